@@ -1,5 +1,6 @@
 import LeaspyVerif.Proto
 import LeaspyVerif.Model.Api
+import LeaspyVerif.Model.Codec
 open LeaspyVerif LeaspyVerif.Proto LeaspyVerif.Api
 
 /-
@@ -12,6 +13,21 @@ requests (one line = one complete case)
   f32 x=<rat,rat,…>                                              → <rat,rat,…>   (round to nearest float32)
   spec kind=… d=<n> s=<n> noise=… K=<n> E=<n>                    → name|shape;…
   kinds n=<name,name,…>                                          → <kind or none>,…  (ModelName(name.lower()))
+
+codec requests (Model/Codec.lean); a json tree is a `,`-separated token stream
+      N | T | F | I<int> | R<rat> (python float) | Xnan | Xinf | Xninf | Xnz | S<hex utf-8> | [ … ] | { S<hex> <value> … }
+  a tensor is <dtype>:<shape>:<elems>   dtype bool|int32|int64|float16|float32|float64, shape `s` or `2x0x3`,
+      elems `_` or b0|b1|i<int>|r<rat>|xnan|xinf|xninf|xnz separated by `,`
+  tj t=<tensor>                         → <tokens>                                  (Tensor.tolist)
+  fj j=<tokens> view=<shape|none>       → ok <tensor> | err:<class>                 (val_to_tensor)
+  tt t=<tensor>                         → <tensor> stable=<0|1> wf=<0|1>            (torch.tensor(t.tolist()) in closed form)
+  n32 x=<fl,…>                          → <fl,…>                                    (double → float32, complete)
+  ld j=<tokens> others=<name|computable|view|shape|asserts|current values;…> ver=<hex> hyper=<name~tensor;…> mix=<tensor|none>
+        → err:<class> | ok name=<hex> feats=<hex,…|none> dimattr=<n|none> src=<n|none> noise=<name> K=<n> E=<n>
+             p=<name~tensor;…> pop=<name,…> resave=<tokens | err:<class>>
+  sv kind=<k> name=<hex> feats=<hex,…|none> dimattr=<n|none> src=<n|none> noise=<name> fm=<tokens> K=<n> E=<n>
+     p=<name~tensor;…> ver=<hex> hyper=<name~tensor;…> mix=<tensor|none>
+        → <tokens | err:<class>> loadable=<0|1> canonical=<0|1>      (the hypotheses of load_toDict / resave_identical)
 -/
 
 def parseShape (s : String) : Option (List Nat) :=
@@ -44,8 +60,255 @@ def fmtErr : Err → String
 
 def parseKind (s : String) : Option Kind := Kind.ofName s
 
+namespace CodecIO
+open LeaspyVerif.Codec
+
+def hexDigit (c : Char) : Option Nat :=
+  if '0' ≤ c && c ≤ '9' then some (c.toNat - '0'.toNat)
+  else if 'a' ≤ c && c ≤ 'f' then some (c.toNat - 'a'.toNat + 10)
+  else none
+
+def unhex (s : String) : Option String :=
+  let rec go : List Char → ByteArray → Option ByteArray
+    | [], acc => some acc
+    | a :: b :: r, acc => do
+        let x ← hexDigit a
+        let y ← hexDigit b
+        go r (acc.push (UInt8.ofNat (16 * x + y)))
+    | _, _ => none
+  (go s.toList ByteArray.empty) >>= String.fromUTF8?
+
+def hexOf (s : String) : String :=
+  let d := "0123456789abcdef".toList
+  String.ofList (s.toUTF8.toList.flatMap (fun b => [d[b.toNat / 16]!, d[b.toNat % 16]!]))
+
+def parseFl (s : String) : Option Fl :=
+  if s == "xnan" then some .nan
+  else if s == "xinf" then some (.inf false)
+  else if s == "xninf" then some (.inf true)
+  else if s == "xnz" then some .nzero
+  else if s.startsWith "r" then (fun q => Fl.fin q) <$> parseRat (s.drop 1).toString
+  else none
+
+def fmtFl : Fl → String
+  | .fin q => "r" ++ fmtRat q
+  | .nzero => "xnz"
+  | .nan => "xnan"
+  | .inf false => "xinf"
+  | .inf true => "xninf"
+
+partial def parseJ : List String → Option (JVal × List String)
+  | "N" :: r => some (.null, r)
+  | "T" :: r => some (.bool true, r)
+  | "F" :: r => some (.bool false, r)
+  | "[" :: r =>
+    let rec items (r : List String) (acc : List JVal) : Option (JVal × List String) :=
+      match r with
+      | "]" :: r' => some (.arr acc.reverse, r')
+      | _ => do
+        let (v, r') ← parseJ r
+        items r' (v :: acc)
+    items r []
+  | "{" :: r =>
+    let rec members (r : List String) (acc : List (String × JVal)) : Option (JVal × List String) :=
+      match r with
+      | "}" :: r' => some (.obj acc.reverse, r')
+      | k :: r' => do
+        if !k.startsWith "S" then none
+        let key ← unhex (k.drop 1).toString
+        let (v, r'') ← parseJ r'
+        members r'' ((key, v) :: acc)
+      | [] => none
+    members r []
+  | t :: r =>
+    if t.startsWith "I" then (fun (n : Int) => (JVal.int n, r)) <$> (t.drop 1).toString.toInt?
+    else if t.startsWith "S" then (fun s => (JVal.str s, r)) <$> unhex (t.drop 1).toString
+    else if t.startsWith "R" then (fun q => (JVal.flt (.fin q), r)) <$> parseRat (t.drop 1).toString
+    else if t == "Xnan" then some (.flt .nan, r)
+    else if t == "Xinf" then some (.flt (.inf false), r)
+    else if t == "Xninf" then some (.flt (.inf true), r)
+    else if t == "Xnz" then some (.flt .nzero, r)
+    else none
+  | [] => none
+
+def parseTree (s : String) : Option JVal :=
+  match parseJ (s.splitOn ",") with
+  | some (v, []) => some v
+  | _ => none
+
+partial def tokensJ : JVal → List String
+  | .null => ["N"]
+  | .bool true => ["T"]
+  | .bool false => ["F"]
+  | .int i => [s!"I{i}"]
+  | .flt (.fin q) => ["R" ++ fmtRat q]
+  | .flt .nan => ["Xnan"]
+  | .flt (.inf false) => ["Xinf"]
+  | .flt (.inf true) => ["Xninf"]
+  | .flt .nzero => ["Xnz"]
+  | .str s => ["S" ++ hexOf s]
+  | .arr l => ["["] ++ l.flatMap tokensJ ++ ["]"]
+  | .obj m => ["{"] ++ m.flatMap (fun p => ("S" ++ hexOf p.1) :: tokensJ p.2) ++ ["}"]
+
+def fmtTree (v : JVal) : String := ",".intercalate (tokensJ v)
+
+def parseDType (s : String) : Option DType :=
+  match s with
+  | "bool" => some .bool
+  | "int32" => some .int32
+  | "int64" => some .int64
+  | "float16" => some .float16
+  | "float32" => some .float32
+  | "float64" => some .float64
+  | _ => none
+
+def fmtDType : DType → String
+  | .bool => "bool"
+  | .int32 => "int32"
+  | .int64 => "int64"
+  | .float16 => "float16"
+  | .float32 => "float32"
+  | .float64 => "float64"
+
+def parseElem (s : String) : Option Elem :=
+  if s == "b1" then some (.b true)
+  else if s == "b0" then some (.b false)
+  else if s.startsWith "i" then (fun (n : Int) => Elem.i n) <$> (s.drop 1).toString.toInt?
+  else Elem.f <$> parseFl s
+
+def fmtElem : Elem → String
+  | .b true => "b1"
+  | .b false => "b0"
+  | .i v => s!"i{v}"
+  | .f x => fmtFl x
+
+def parseTensor (s : String) : Option Codec.Tensor :=
+  match s.splitOn ":" with
+  | [dt, sh, d] => do
+      let dtype ← parseDType dt
+      let shape ← parseShape sh
+      let data ← parseList parseElem d
+      some ⟨dtype, shape, data⟩
+  | _ => none
+
+def fmtTensor (t : Codec.Tensor) : String :=
+  s!"{fmtDType t.dtype}:{fmtShape t.shape}:{fmtList fmtElem t.data}"
+
+def parseNamed (s : String) : Option (List (String × Codec.Tensor)) :=
+  (splitNE s ";").mapM (fun e =>
+    match e.splitOn "~" with
+    | [n, t] => (fun t => (n, t)) <$> parseTensor t
+    | _ => none)
+
+def fmtNamed (l : List (String × Codec.Tensor)) : String :=
+  fmtList (fun (p : String × Codec.Tensor) => s!"{p.1}~{fmtTensor p.2}") l ";"
+
+def fmtErr : Codec.Err → String
+  | .modelInput => "err:model"
+  | .input => "err:input"
+  | .value => "err:value"
+  | .type => "err:type"
+  | .runtime => "err:runtime"
+  | .attribute => "err:attribute"
+  | .key => "err:key"
+  | .notImplemented => "err:notimplemented"
+  | .assertion => "err:assertion"
+  | .outside => "err:outside"
+
+def parseCKind (s : String) : Option Codec.Kind :=
+  match Codec.kindOfName s with
+  | some (some k) => some k
+  | _ => none
+
+def parseNoise (s : String) : Option Noise :=
+  match s with
+  | "gaussian-scalar" => some .scalar
+  | "gaussian-diagonal" => some .diagonal
+  | "bernoulli" => some .bernoulli
+  | _ => none
+
+def parseOther (s : String) : Option (String × Other) :=
+  match s.splitOn "|" with
+  | [n, c, v, sh, a, cur] => do
+      let comp ← parseBool c
+      let view ← if v == "none" then some none else some <$> parseShape v
+      let shape ← parseShape sh
+      let asserts ← parseBool a
+      let current ← parseList parseFl cur
+      some (n, ⟨comp, view, shape, asserts, current⟩)
+  | _ => none
+
+def parseFeats (s : String) : Option (Option (List String)) :=
+  if s == "none" then some none else some <$> (splitNE s ",").mapM unhex
+
+def fmtFeats : Option (List String) → String
+  | none => "none"
+  | some fs => fmtList hexOf fs
+
+def fmtOptNat : Option Nat → String
+  | none => "none"
+  | some n => toString n
+
+def extOf (args : List String) : Option Ext := do
+  let ver ← (kv args "ver") >>= unhex
+  let hyper ← (kv args "hyper") >>= parseNamed
+  let mixS ← kv args "mix"
+  let mix : Codec.Tensor ← if mixS == "none" then some ⟨.float32, [0], []⟩ else parseTensor mixS
+  some ⟨ver, fun _ _ _ _ _ _ => hyper, fun _ _ _ _ => mix⟩
+
+def handle (op : String) (args : List String) : Option String :=
+  match op with
+  | "tj" => do
+      let t ← (kv args "t") >>= parseTensor
+      some (fmtTree (toJson t))
+  | "fj" => do
+      let j ← (kv args "j") >>= parseTree
+      let vS ← kv args "view"
+      let view ← if vS == "none" then some none else some <$> parseShape vS
+      match valToTensor narrow32 view j with
+      | .ok t => some ("ok " ++ fmtTensor t)
+      | .err e => some (fmtErr e)
+  | "tt" => do
+      let t ← (kv args "t") >>= parseTensor
+      some s!"{fmtTensor (t.back narrow32)} stable={fmtBool t.stable} wf={fmtBool (t.wf narrow32)}"
+  | "n32" => do
+      let xs ← (kv args "x") >>= parseList parseFl
+      some (fmtList fmtFl (xs.map narrow32))
+  | "ld" => do
+      let j ← (kv args "j") >>= parseTree
+      let others ← (kv args "others") >>= (fun s => (splitNE s ";").mapM parseOther)
+      let X ← extOf args
+      match load narrow32 (fun _ _ _ _ _ _ => others) j with
+      | .err e => some (fmtErr e)
+      | .ok o =>
+        let re := match toDict X o with
+          | .ok v => fmtTree v
+          | .err e => fmtErr e
+        some s!"ok name={hexOf o.name} feats={fmtFeats o.features} dimattr={fmtOptNat o.dimAttr} src={fmtOptNat o.sourceDim} noise={o.noise.toName} K={o.nClusters} E={o.nbEvents} p={fmtNamed o.params} pop={fmtList (fun (p : String × Codec.Tensor) => p.1) o.pop} resave={re}"
+  | "sv" => do
+      let kind ← (kv args "kind") >>= parseCKind
+      let name ← (kv args "name") >>= unhex
+      let feats ← (kv args "feats") >>= parseFeats
+      let dimattr ← (kv args "dimattr") >>= parseOptNat
+      let src ← (kv args "src") >>= parseOptNat
+      let noise ← (kv args "noise") >>= parseNoise
+      let fm ← (kv args "fm") >>= parseTree
+      let K ← (kv args "K") >>= parseNat
+      let E ← (kv args "E") >>= parseNat
+      let ps ← (kv args "p") >>= parseNamed
+      let X ← extOf args
+      let o : Obj := ⟨kind, name, feats, dimattr, src, noise, fm, E, K, ps, priorMode ps⟩
+      let flags := s!" loadable={fmtBool (o.loadable X narrow32 (fun _ d s _ _ _ => mixingOther d s))} canonical={fmtBool (o.canonical narrow32)}"
+      match toDict X o with
+      | .ok v => some (fmtTree v ++ flags)
+      | .err e => some (fmtErr e ++ flags)
+  | _ => none
+
+end CodecIO
+
 def handle (line : String) : String :=
   match line.splitOn " " with
+  | "codec" :: op :: args => (CodecIO.handle op args).getD "bad-request"
   | "rt" :: args =>
     (do
       let kind ← (kv args "kind") >>= parseKind
